@@ -40,7 +40,7 @@ def model(tier):
         "Cuts": set(G[: n - 1]),
     }
     plain = {"DayLen": DAY, "MaxOpt": 1 if tier == "quick" else 2, "MaxCalls": n, "ResetAnywhere": False, "ClockRule": "after_newdate",
-             "HistoryOrder": "by_time", "NullRule": "in_space"}
+             "HistoryOrder": "by_time", "NullRule": "in_space", "StartStride": 1}
     inv = ["PrefixEqual", "NextExecCut"]
     return tlagen.mc_module("MC", "NoLookahead", defs), tlagen.cfg(defs, plain, invariants=inv), inv, n
 
@@ -60,7 +60,7 @@ def model_markov(tier):
         "Cuts": set(G[1: n - 1]),
     }
     plain = {"DayLen": DAY, "MaxOpt": 1, "MaxCalls": 4 if tier == "quick" else 5, "ResetAnywhere": True, "ClockRule": "after_newdate",
-             "HistoryOrder": "by_time", "NullRule": "in_space"}
+             "HistoryOrder": "by_time", "NullRule": "in_space", "StartStride": 1}
     inv = ["PrefixEqual", "NextExecCut"]
     return tlagen.mc_module("MC", "NoLookahead", defs), tlagen.cfg(defs, plain, invariants=inv), inv, plain["MaxCalls"]
 
@@ -84,7 +84,7 @@ def model_subsecond(tier):
         "Cuts": set(g[:2]),
     }
     plain = {"DayLen": dl, "MaxOpt": 1 if tier == "quick" else 2, "MaxCalls": 3, "ResetAnywhere": False,
-             "ClockRule": "after_newdate", "HistoryOrder": "by_time", "NullRule": "in_space"}
+             "ClockRule": "after_newdate", "HistoryOrder": "by_time", "NullRule": "in_space", "StartStride": 1}
     inv = ["PrefixEqual", "NextExecCut"]
     from fractions import Fraction
     return tlagen.mc_module("MC", "NoLookahead", defs), tlagen.cfg(defs, plain, invariants=inv), inv, 3, Fraction(1, u)
